@@ -291,12 +291,6 @@ Proof. intros [] []; vm_compute; reflexivity. Qed.
 (* string literals                                                                       *)
 (* ------------------------------------------------------------------------------------ *)
 
-Lemma str_templates_quotes : forall l, str_prefix l = [34] /\ str_suffix l = [34].
-Proof. intros []; split; reflexivity. Qed.
-
-Lemma format_str_quotes : forall l s, format_str l s = 34 :: s ++ [34].
-Proof. intros l s. unfold format_str. destruct (str_templates_quotes l) as [-> ->]. reflexivity. Qed.
-
 Ltac split_unsafe H :=
   unfold safe_char, unsafe_chars in H; cbn [existsb] in H;
   rewrite negb_true_iff in H; repeat (apply orb_false_iff in H; destruct H as [? H]).
@@ -321,13 +315,6 @@ Proof.
   match goal with E : (a =? 34) = false |- _ => rewrite E end; reflexivity.
 Qed.
 
-Lemma string_literal_py : forall s, safe_string_in LPy s = true ->
-  read_string LPy (format_str LPy s) = RdOk s.
-Proof.
-  intros s Hs. rewrite format_str_quotes. cbn [read_string py_read_string]. rewrite Z.eqb_refl.
-  rewrite starts_two_quotes_safe by assumption. rewrite py_scan_safe by assumption. reflexivity.
-Qed.
-
 Lemma go_scan_safe : forall s acc, safe_string_in LGo s = true ->
   go_scan (s ++ [34]) true acc = RdOk (rev acc ++ s).
 Proof.
@@ -338,13 +325,6 @@ Proof.
     cbn [app go_scan].
     repeat match goal with E : (c =? _) = false |- _ => rewrite E; clear E end.
     cbn [orb]. rewrite IH by assumption. cbn [rev]. rewrite <- app_assoc. reflexivity.
-Qed.
-
-Lemma string_literal_go : forall s, safe_string_in LGo s = true ->
-  read_string LGo (format_str LGo s) = RdOk s.
-Proof.
-  intros s Hs. rewrite format_str_quotes. cbn [read_string go_read_string]. rewrite Z.eqb_refl.
-  rewrite go_scan_safe by assumption. reflexivity.
 Qed.
 
 Lemma c_splice_safe : forall s, safe_string_in LC s = true -> c_splice (s ++ [34]) = s ++ [34].
@@ -366,64 +346,6 @@ Proof.
     cbn [app c_scan].
     repeat match goal with E : (c =? _) = false |- _ => rewrite E; clear E end.
     cbn [orb]. rewrite IH by (try assumption; lia). cbn [rev]. rewrite <- app_assoc. reflexivity.
-Qed.
-
-Lemma string_literal_c : forall s, safe_string_in LC s = true ->
-  read_string LC (format_str LC s) = RdOk s.
-Proof.
-  intros s Hs. rewrite format_str_quotes. cbn [read_string]. unfold c_read_string.
-  change (34 :: s ++ [34]) with ([34] ++ (s ++ [34])).
-  cbn [app c_splice]. change (34 =? 92) with false. cbv iota.
-  rewrite c_splice_safe by assumption. rewrite Z.eqb_refl.
-  rewrite c_scan_safe; [reflexivity|assumption|]. rewrite app_length. cbn [length]. lia.
-Qed.
-
-Lemma safe_string_all : forall s l, safe_string s = true -> safe_string_in l s = true.
-Proof.
-  intros s l H. unfold safe_string in H. unfold safe_string_in.
-  rewrite forallb_forall in *. intros c Hc. specialize (H c Hc).
-  cbn [existsb] in H. rewrite negb_true_iff in H.
-  repeat (apply orb_false_iff in H; destruct H as [? H]).
-  unfold safe_char. destruct l; cbn [unsafe_chars existsb]; rewrite negb_true_iff;
-    repeat match goal with E : (c =? _) = false |- _ => rewrite E; clear E end; reflexivity.
-Qed.
-
-Lemma string_literal_all : forall l s, safe_string s = true ->
-  read_string l (format_str l s) = RdOk s.
-Proof.
-  intros l s H. pose proof (safe_string_all s l H) as Hl.
-  destruct l; [apply string_literal_c|apply string_literal_go|apply string_literal_py]; assumption.
-Qed.
-
-(* every excluded character is excluded for a reason: a string made of that character and
-   harmless ones which the language rejects or reads as a different string *)
-Definition refute_witness (c : Z) : text := if c =? 34 then [34; 32] else [97; c; 98].
-
-Definition refuted_by (l : lang) (s : text) : bool :=
-  match read_string l (format_str l s) with
-  | RdErr => true
-  | RdOk s' => negb (text_eqb s' s)
-  | RdUnmodelled => false
-  end.
-
-Lemma unsafe_chars_refuted : forall l,
-  forallb (fun c => refuted_by l (refute_witness c)) (unsafe_chars l) = true.
-Proof. intros []; vm_compute; reflexivity. Qed.
-
-Lemma string_literal_refuted : forall l c, In c (unsafe_chars l) ->
-  exists s, (forall x, In x s -> x = c \/ safe_char l x = true) /\
-            (read_string l (format_str l s) = RdErr \/
-             exists s', read_string l (format_str l s) = RdOk s' /\ s' <> s).
-Proof.
-  intros l c Hc. exists (refute_witness c). split.
-  - intros x Hx. unfold refute_witness in Hx.
-    destruct l; cbn [unsafe_chars In] in Hc;
-      repeat (destruct Hc as [<-|Hc]; [cbn in Hx; intuition (subst; auto)|]); contradiction.
-  - pose proof (unsafe_chars_refuted l) as H. rewrite forallb_forall in H. specialize (H c Hc).
-    unfold refuted_by in H. destruct (read_string l (format_str l (refute_witness c))) as [s'| |].
-    + right. exists s'. split; [reflexivity|]. intro E. subst s'. rewrite text_eqb_refl in H. discriminate.
-    + left. reflexivity.
-    + discriminate.
 Qed.
 
 (* ------------------------------------------------------------------------------------ *)
@@ -518,7 +440,7 @@ Proof.
 Qed.
 
 (* ------------------------------------------------------------------------------------ *)
-(* the proposed fix (format_str_fixed) is read back as the value by all three languages   *)
+(* the standard escaping (format_str_fixed) is read back as the value by all three languages *)
 (* ------------------------------------------------------------------------------------ *)
 
 Definition ctrl_codes : list Z :=
@@ -532,18 +454,18 @@ Proof.
 Qed.
 
 Lemma esc_ctrl_py : Forall (fun c => forall rest acc,
-  py_scan (esc_char c ++ rest) true acc = py_scan rest true (c :: acc)) ctrl_codes.
+  py_scan (esc_char_std c ++ rest) true acc = py_scan rest true (c :: acc)) ctrl_codes.
 Proof. repeat constructor; intros; reflexivity. Qed.
 Lemma esc_ctrl_go : Forall (fun c => forall rest acc,
-  go_scan (esc_char c ++ rest) true acc = go_scan rest true (c :: acc)) ctrl_codes.
+  go_scan (esc_char_std c ++ rest) true acc = go_scan rest true (c :: acc)) ctrl_codes.
 Proof. repeat constructor; intros; reflexivity. Qed.
 Lemma esc_ctrl_c : Forall (fun c => forall f rest acc,
-  c_scan (S f) (esc_char c ++ rest) true acc = c_scan f rest true (c :: acc)) ctrl_codes.
+  c_scan (S f) (esc_char_std c ++ rest) true acc = c_scan f rest true (c :: acc)) ctrl_codes.
 Proof. repeat constructor; intros; reflexivity. Qed.
 
-(* the five cases of esc_char *)
+(* the five cases of esc_char_std *)
 Ltac esc_cases c :=
-  unfold esc_char;
+  unfold esc_char_std;
   destruct (Z.eqb_spec c 92) as [->|N92]; [|
   destruct (Z.eqb_spec c 34) as [->|N34]; [|
   destruct (Z.eqb_spec c 10) as [->|N10]; [|
@@ -552,12 +474,12 @@ Ltac esc_cases c :=
   destruct ((c <? 32) || (c =? 127)) eqn:Ctl]]]]].
 
 Lemma esc_char_py : forall c rest acc, 0 <= c ->
-  py_scan (esc_char c ++ rest) true acc = py_scan rest true (c :: acc).
+  py_scan (esc_char_std c ++ rest) true acc = py_scan rest true (c :: acc).
 Proof.
   intros c rest acc H0.
   pose proof esc_ctrl_py as HC. rewrite Forall_forall in HC.
   esc_cases c; try reflexivity.
-  - pose proof (HC c (ctrl_in c H0 Ctl) rest acc) as HH. unfold esc_char in HH.
+  - pose proof (HC c (ctrl_in c H0 Ctl) rest acc) as HH. unfold esc_char_std in HH.
     apply Z.eqb_neq in N92, N34, N10, N13, N9. rewrite N92, N34, N10, N13, N9, Ctl in HH. exact HH.
   - apply orb_false_iff in Ctl. destruct Ctl as [C1 C2]. apply Z.ltb_ge in C1.
     cbn [app py_scan]. apply Z.eqb_neq in N92, N34, N10, N13.
@@ -566,12 +488,12 @@ Proof.
 Qed.
 
 Lemma esc_char_go : forall c rest acc, 0 <= c ->
-  go_scan (esc_char c ++ rest) true acc = go_scan rest true (c :: acc).
+  go_scan (esc_char_std c ++ rest) true acc = go_scan rest true (c :: acc).
 Proof.
   intros c rest acc H0.
   pose proof esc_ctrl_go as HC. rewrite Forall_forall in HC.
   esc_cases c; try reflexivity.
-  - pose proof (HC c (ctrl_in c H0 Ctl) rest acc) as HH. unfold esc_char in HH.
+  - pose proof (HC c (ctrl_in c H0 Ctl) rest acc) as HH. unfold esc_char_std in HH.
     apply Z.eqb_neq in N92, N34, N10, N13, N9. rewrite N92, N34, N10, N13, N9, Ctl in HH. exact HH.
   - apply orb_false_iff in Ctl. destruct Ctl as [C1 C2]. apply Z.ltb_ge in C1.
     cbn [app go_scan]. apply Z.eqb_neq in N92, N34, N10.
@@ -580,19 +502,19 @@ Proof.
 Qed.
 
 Lemma esc_char_c : forall c f rest acc, 0 <= c ->
-  c_scan (S f) (esc_char c ++ rest) true acc = c_scan f rest true (c :: acc).
+  c_scan (S f) (esc_char_std c ++ rest) true acc = c_scan f rest true (c :: acc).
 Proof.
   intros c f rest acc H0.
   pose proof esc_ctrl_c as HC. rewrite Forall_forall in HC.
   esc_cases c; try reflexivity.
-  - pose proof (HC c (ctrl_in c H0 Ctl) f rest acc) as HH. unfold esc_char in HH.
+  - pose proof (HC c (ctrl_in c H0 Ctl) f rest acc) as HH. unfold esc_char_std in HH.
     apply Z.eqb_neq in N92, N34, N10, N13, N9. rewrite N92, N34, N10, N13, N9, Ctl in HH. exact HH.
   - cbn [app c_scan]. apply Z.eqb_neq in N92, N34, N10, N13.
     rewrite N34, N10, N13, N92. reflexivity.
 Qed.
 
 Lemma esc_char_shape : forall c, 0 <= c ->
-  exists h t, esc_char c = h :: t /\ h <> 34 /\ forallb (fun x => negb (x =? 10) && negb (x =? 13)) (esc_char c) = true.
+  exists h t, esc_char_std c = h :: t /\ h <> 34 /\ forallb (fun x => negb (x =? 10) && negb (x =? 13)) (esc_char_std c) = true.
 Proof.
   intros c H0. esc_cases c; try (eexists _, _; split; [reflexivity|split; [lia|reflexivity]]).
   - eexists _, _. split; [reflexivity|]. split; [lia|].
@@ -615,7 +537,7 @@ Proof.
 Qed.
 
 Lemma py_scan_fixed : forall s acc, Forall (fun c => 0 <= c) s ->
-  py_scan (flat_map esc_char s ++ [34]) true acc = RdOk (rev acc ++ s).
+  py_scan (flat_map esc_char_std s ++ [34]) true acc = RdOk (rev acc ++ s).
 Proof.
   induction s as [|c s IH]; intros acc HF.
   - cbn. rewrite app_nil_r. reflexivity.
@@ -624,7 +546,7 @@ Proof.
 Qed.
 
 Lemma go_scan_fixed : forall s acc, Forall (fun c => 0 <= c) s ->
-  go_scan (flat_map esc_char s ++ [34]) true acc = RdOk (rev acc ++ s).
+  go_scan (flat_map esc_char_std s ++ [34]) true acc = RdOk (rev acc ++ s).
 Proof.
   induction s as [|c s IH]; intros acc HF.
   - cbn. rewrite app_nil_r. reflexivity.
@@ -633,7 +555,7 @@ Proof.
 Qed.
 
 Lemma c_scan_fixed : forall s acc f, Forall (fun c => 0 <= c) s -> (length s + 2 <= f)%nat ->
-  c_scan f (flat_map esc_char s ++ [34]) true acc = RdOk (rev acc ++ s).
+  c_scan f (flat_map esc_char_std s ++ [34]) true acc = RdOk (rev acc ++ s).
 Proof.
   induction s as [|c s IH]; intros acc f HF Hf.
   - destruct f as [|[|f]]; cbn [length] in Hf; try lia. cbn. rewrite app_nil_r. reflexivity.
@@ -643,14 +565,14 @@ Proof.
 Qed.
 
 Lemma fixed_no_newline : forall s, Forall (fun c => 0 <= c) s ->
-  forallb (fun x => negb (x =? 10) && negb (x =? 13)) (flat_map esc_char s ++ [34]) = true.
+  forallb (fun x => negb (x =? 10) && negb (x =? 13)) (flat_map esc_char_std s ++ [34]) = true.
 Proof.
   induction s as [|c s IH]; intro HF; [reflexivity|]. inversion HF; subst.
   cbn [flat_map]. rewrite <- app_assoc, forallb_app, IH by assumption.
   destruct (esc_char_shape c ltac:(assumption)) as (h & t & _ & _ & E). rewrite E. reflexivity.
 Qed.
 
-Lemma fixed_length : forall s, Forall (fun c => 0 <= c) s -> (length s <= length (flat_map esc_char s))%nat.
+Lemma fixed_length : forall s, Forall (fun c => 0 <= c) s -> (length s <= length (flat_map esc_char_std s))%nat.
 Proof.
   induction s as [|c s IH]; intro HF; [cbn; lia|]. inversion HF; subst.
   cbn [flat_map length]. rewrite app_length.
@@ -662,13 +584,13 @@ Lemma string_literal_fixed : forall l s, Forall (fun c => 0 <= c) s ->
 Proof.
   intros l s HF. unfold format_str_fixed. destruct l; cbn [read_string].
   - unfold c_read_string.
-    rewrite (c_splice_no_newline (34 :: flat_map esc_char s ++ [34]))
+    rewrite (c_splice_no_newline (34 :: flat_map esc_char_std s ++ [34]))
       by (cbn [forallb]; rewrite fixed_no_newline by assumption; reflexivity).
     rewrite Z.eqb_refl. rewrite c_scan_fixed; [reflexivity|assumption|].
     rewrite app_length. cbn [length]. pose proof (fixed_length s HF). lia.
   - unfold go_read_string. rewrite Z.eqb_refl. rewrite go_scan_fixed by assumption. reflexivity.
   - unfold py_read_string. rewrite Z.eqb_refl.
-    replace (starts_two_quotes (flat_map esc_char s ++ [34])) with false.
+    replace (starts_two_quotes (flat_map esc_char_std s ++ [34])) with false.
     + rewrite py_scan_fixed by assumption. reflexivity.
     + destruct s as [|c s]; [reflexivity|]. inversion HF; subst. cbn [flat_map].
       destruct (esc_char_shape c ltac:(assumption)) as (h & t & E & Hh & _). rewrite E.
@@ -715,3 +637,31 @@ Proof.
     destruct (lookup_esc e std_escapes); [apply IH|reflexivity].
   - apply IH.
 Qed.
+
+
+(* ------------------------------------------------------------------------------------ *)
+(* the translated helper IS the standard escaping, and the three formatters use it         *)
+(* ------------------------------------------------------------------------------------ *)
+
+Lemma esc_char_is_std : forall c, esc_char c = esc_char_std c.
+Proof.
+  intro c. unfold esc_char, esc_char_std, str_escapes, str_ctrl, str_ctrl_prefix, octal3.
+  cbn [lookup_rep].
+  destruct (c =? 92); [reflexivity|]. destruct (c =? 34); [reflexivity|].
+  destruct (c =? 10); [reflexivity|]. destruct (c =? 13); [reflexivity|].
+  destruct (c =? 9); [reflexivity|]. destruct ((c <? 32) || (c =? 127)); reflexivity.
+Qed.
+
+Lemma str_templates : forall l, str_prefix l = [34] /\ str_suffix l = [34] /\ str_escaped l = true.
+Proof. intros []; repeat split; reflexivity. Qed.
+
+Lemma format_str_is_fixed : forall l s, format_str l s = format_str_fixed s.
+Proof.
+  intros l s. unfold format_str, format_str_fixed.
+  destruct (str_templates l) as (-> & -> & ->). cbn [app]. f_equal. f_equal.
+  induction s as [|c s IH]; [reflexivity|]. cbn [flat_map]. rewrite esc_char_is_std, IH. reflexivity.
+Qed.
+
+Lemma string_literal : forall l s, Forall (fun c => 0 <= c) s ->
+  read_string l (format_str l s) = RdOk s.
+Proof. intros l s H. rewrite format_str_is_fixed. apply string_literal_fixed. exact H. Qed.
